@@ -41,6 +41,10 @@ type params struct {
 	MaxFirst bool          // options applied as MaxWorkers(M), Workers(W0) instead of Workers, MaxWorkers
 	Huge     bool          // adversarial pacer may answer with a wait of MaxInt64 ("hold until stopped")
 	FailRT   bool          // every exchange fails in the transport; the client has a 1ns Timeout configured
+	NoTgts   bool          // the failing targeter call returns vegeta.ErrNoTargets (a lazy target stream that ran dry)
+	SlowTail bool          // the last byte of a response body only arrives after the environment lets it
+	RealTr   int           // >0: the client uses a real *http.Transport (the fake transport is registered for the scheme "fake") with MaxConnections(RealTr)
+	Second   bool          // a second Attack call on the same Attacker while the first is running
 }
 
 func (p params) name() string {
@@ -72,6 +76,18 @@ func (p params) name() string {
 	if p.FailRT {
 		s += ",failrt"
 	}
+	if p.NoTgts {
+		s += ",errnotargets"
+	}
+	if p.SlowTail {
+		s += ",slowtail"
+	}
+	if p.RealTr > 0 {
+		s += fmt.Sprintf(",realtransport,maxconns=%d", p.RealTr)
+	}
+	if p.Second {
+		s += ",two-attacks"
+	}
 	if !p.Adv && p.Du == 0 && p.Wait != 0 {
 		s += fmt.Sprintf(",wait=%d", p.Wait)
 	}
@@ -89,6 +105,7 @@ type paceRec struct {
 }
 
 type rtRec struct {
+	Attack      string
 	Seq         string
 	Entry, Exit time.Duration
 	BodyEOF     time.Duration // when the response body had been read to its end
@@ -99,9 +116,17 @@ type clockBody struct {
 	rec  *rtRec
 	data *strings.Reader
 	on   bool
+	slow bool
 }
 
 func (b *clockBody) Read(p []byte) (int, error) {
+	if b.slow && b.data.Len() == 1 {
+		b.slow = false
+		vsched.EnvYield("body-tail") // the rest of the body is still in transit
+	}
+	if b.slow && len(p) > 1 && b.data.Len() > 1 {
+		p = p[:b.data.Len()-1] // everything but the last byte is there already
+	}
 	n, err := b.data.Read(p)
 	if err == io.EOF && b.on && b.rec.BodyEOF == 0 {
 		b.rec.BodyEOF = vsched.TimeNow().Sub(vsched.Base())
@@ -127,6 +152,10 @@ type world struct {
 	inv        string
 	released   int // ticks the attacker has handed over (counted by the driver from the operations it applies)
 	lastSteps  int
+	preSpawn   int    // threads spawned before Attack was called (e.g. the DNS refresher): not goroutines "of the attack"
+	name       string // attack name
+	second     *world // the second attack on the same Attacker (p.Second)
+	parent     *world // set in the second attack's world: transport records live in the first
 }
 
 type pacer struct{ w *world }
@@ -180,7 +209,7 @@ func (pc pacer) Rate(time.Duration) float64 { return 1 }
 type fakeRT struct{ w *world }
 
 func (f fakeRT) RoundTrip(r *http.Request) (*http.Response, error) {
-	rec := &rtRec{Seq: r.Header.Get("X-Vegeta-Seq")}
+	rec := &rtRec{Attack: r.Header.Get("X-Vegeta-Attack"), Seq: r.Header.Get("X-Vegeta-Seq")}
 	if f.w.p.ClockHit {
 		rec.Entry = vsched.TimeNow().Sub(vsched.Base())
 	}
@@ -192,7 +221,7 @@ func (f fakeRT) RoundTrip(r *http.Request) (*http.Response, error) {
 	if f.w.p.FailRT {
 		return nil, errors.New("connection reset by peer")
 	}
-	body := &clockBody{rec: rec, data: strings.NewReader("ok"), on: f.w.p.ClockHit && f.w.p.Mode == vsched.ClockTicking}
+	body := &clockBody{rec: rec, data: strings.NewReader("ok"), on: f.w.p.ClockHit && f.w.p.Mode == vsched.ClockTicking, slow: f.w.p.SlowTail}
 	return &http.Response{StatusCode: 200, Status: "200 OK", Body: body, Header: http.Header{}, Request: r}, nil
 }
 
@@ -205,9 +234,15 @@ func (w *world) targeter(t *vegeta.Target) error {
 		w.startT = append(w.startT, vsched.TimeNow().Sub(vsched.Base()))
 	}
 	if w.p.Cause == "tgterr" && k == w.p.ErrAt {
+		if w.p.NoTgts {
+			return vegeta.ErrNoTargets
+		}
 		return errTgt
 	}
 	t.Method, t.URL = "GET", "http://h/"
+	if w.p.RealTr > 0 {
+		t.URL = "fake://h/"
+	}
 	return nil
 }
 
@@ -221,7 +256,16 @@ func (w *world) main() {
 		if p.FailRT {
 			c.Timeout = 1 // 1ns: whatever the exchange takes is longer than the configured timeout
 		}
+		if p.RealTr > 0 {
+			// a real *http.Transport, as the default attacker has: the options that look at it take effect
+			tr := &http.Transport{}
+			tr.RegisterProtocol("fake", fakeRT{w})
+			c.Transport = tr
+		}
 		opts = append(opts, vegeta.Client(c))
+		if p.RealTr > 0 {
+			opts = append(opts, vegeta.MaxConnections(p.RealTr), vegeta.Connections(p.RealTr))
+		}
 	}
 	if p.MaxFirst {
 		opts = append(opts, vegeta.MaxWorkers(p.M), vegeta.Workers(p.W0))
@@ -232,12 +276,35 @@ func (w *world) main() {
 		opts = append(opts, vegeta.MaxBody(1))
 	}
 	atk := vegeta.NewAttacker(opts...)
+	w.preSpawn = vsched.SpawnCount()
+	w.name = "atk"
 	w.began = vsched.ClockPeek()
-	res := atk.Attack(w.targeter, pacer{w}, p.Du, "atk")
+	res := atk.Attack(w.targeter, pacer{w}, p.Du, w.name)
 	w.resultsID = vsched.ChanID(res)
 	w.attackerID = fmt.Sprintf("0.%d", vsched.SpawnCount())
 	if p.Mode == vsched.ClockTicking {
 		w.began++ // Attack's own time.Now() ticked once
+	}
+	if p.Second {
+		// the same Attacker is used for a second attack while the first one is running
+		w2 := &world{id: w.id, p: p, name: "atk2", parent: w}
+		w2.p.Second = false
+		w.second = w2
+		w2.began = vsched.ClockPeek()
+		res2 := atk.Attack(w2.targeter, pacer{w2}, p.Du, w2.name)
+		if p.Mode == vsched.ClockTicking {
+			w2.began++
+		}
+		vsched.GoEnv(func() {
+			for {
+				r, ok := vsched.Recv2(res2)
+				if !ok {
+					w2.closes++
+					return
+				}
+				w2.delivered = append(w2.delivered, r)
+			}
+		})
 	}
 	stopper := func(twice bool) func() {
 		return func() {
@@ -313,6 +380,20 @@ func (w *world) invariant(s *vsched.Sched) string {
 	if s.Last.Kind == vsched.KClose && w.resultsID != 0 && s.Last.Obj == w.resultsID && w.started != n {
 		return fmt.Sprintf("C02: results channel closed while %d of %d started hits had not delivered", w.started-n, w.started)
 	}
+	if s.Last.Kind == vsched.KClose && w.resultsID != 0 && s.Last.Obj == w.resultsID {
+		// the attack is over for its caller: nothing it started may still be running (the attack goroutine
+		// itself finishes right after the close; goroutines that existed before Attack are not "of the attack")
+		for _, t := range s.AllThreads() {
+			if !t.Sys || t.Done() || t.ID == w.attackerID {
+				continue
+			}
+			var k int
+			if n, _ := fmt.Sscanf(t.ID, "0.%d", &k); n == 1 && !strings.Contains(t.ID[2:], ".") && k <= w.preSpawn {
+				continue
+			}
+			return "C02: goroutine " + t.ID + " of the attack is still running when the results channel is closed"
+		}
+	}
 	return ""
 }
 
@@ -358,6 +439,11 @@ func (w *world) invariantC03(s *vsched.Sched, n int) string {
 }
 
 func (w *world) end(s *vsched.Sched, r *vsched.Result) (string, string) {
+	if w.second != nil {
+		if v, o := w.second.end(s, r); v != "" {
+			return v + " [second attack on the same Attacker]", o
+		}
+	}
 	for _, t := range s.AllThreads() {
 		if !t.Done() {
 			if v := "C02: goroutine " + t.ID + " left behind"; w.own(v) {
@@ -407,7 +493,7 @@ func (w *world) end(s *vsched.Sched, r *vsched.Result) (string, string) {
 		}
 	}
 	for _, x := range w.delivered {
-		if x.Attack != "atk" {
+		if x.Attack != w.name {
 			if v := "C02: result without the attack name"; w.own(v) {
 				return v, outcome
 			}
@@ -529,8 +615,12 @@ func (w *world) end(s *vsched.Sched, r *vsched.Result) (string, string) {
 					return v, outcome
 				}
 			}
-			for _, rr := range w.rts {
-				if rr.Seq == fmt.Sprint(x.Seq) {
+			rts := w.rts
+			if w.parent != nil {
+				rts = w.parent.rts
+			}
+			for _, rr := range rts {
+				if rr.Seq == fmt.Sprint(x.Seq) && rr.Attack == x.Attack {
 					if !(ts < rr.Entry) {
 						if v := fmt.Sprintf("C05: seq %d timestamp %d is not before its transport entry %d", x.Seq, ts, rr.Entry); w.own(v) {
 							return v, outcome
@@ -769,6 +859,21 @@ func c02Plans() []plan {
 			}
 		}
 	}
+	// a lazy target stream that runs dry: the targeter reports ErrNoTargets
+	for _, c := range [][3]int{{1, 1, 1}, {1, 2, 2}, {2, 2, 2}, {2, 2, 3}, {1, 3, 3}} {
+		for k := 0; k < c[2]; k++ {
+			b := -1
+			if c[2] >= 3 {
+				b = ev.Pick(2, 3)
+			}
+			add(params{W0: uint64(c[0]), M: uint64(c[1]), N: c[2], Cause: "tgterr", ErrAt: k, NoTgts: true}, b)
+		}
+	}
+	// max-body set and a response whose tail is still in transit when everything else is done
+	add(params{W0: 1, M: 1, N: 1, Cause: "pacer", Trunc: true, SlowTail: true}, -1)
+	add(params{W0: 1, M: 2, N: 2, Cause: "pacer", Trunc: true, SlowTail: true}, ev.Pick(2, -1))
+	add(params{W0: 2, M: 2, N: 2, Cause: "stop1", Trunc: true, SlowTail: true}, ev.Pick(2, 3))
+	add(params{W0: 1, M: 1, N: 2, Cause: "pacer", SlowTail: true}, -1)
 	// stop before anything happens, slow consumer, duration, DNS refresh goroutine
 	add(params{W0: 1, M: 1, N: 0, Cause: "stop2"}, -1)
 	add(params{W0: 2, M: 2, N: 2, Cause: "pacer", Slow: true}, -1)
@@ -818,6 +923,10 @@ func c03Plans() []plan {
 				// the pacer asks for a positive wait before every hit (on schedule, not behind)
 				add(params{W0: w0, M: m, N: n, Cause: "pacer", Slow: true, Wait: 5}, bs)
 			}
+			if n <= 3 && w0 <= 1 {
+				// a real *http.Transport with a connection limit below max-workers: the worker pool is not a connection pool
+				add(params{W0: w0, M: m, N: n, Cause: "pacer", Slow: true, RealTr: 1}, bs)
+			}
 			if w0 > m && n <= 3 {
 				// the options in the other order: MaxWorkers first, then an initial worker count above it
 				add(params{W0: w0, M: m, N: n, Cause: "pacer", Slow: true, MaxFirst: true}, bs)
@@ -856,6 +965,11 @@ func c04Plans() []plan {
 			add(params{W0: w0, M: m, N: 2, Cause: "stop1", Adv: true}, ev.Pick(1, 2))
 		}
 	}
+	// a clock that moves with every reading (1ns per read): the deadline can fall between any two readings
+	for du := time.Duration(1); du <= 14; du++ {
+		p := params{W0: 1, M: 1, N: 3, Cause: "duration", Du: du, Mode: vsched.ClockTicking}
+		ps = append(ps, plan{p, vsched.Config{Bound: ev.Pick(1, 2), Cache: true, Deadline: dl, Iterate: true}})
+	}
 	return ps
 }
 
@@ -879,6 +993,11 @@ func c05Plans() []plan {
 	add(params{W0: 1, M: 1, N: 2, Cause: "pacer", Trunc: true}, -1)
 	add(params{W0: 2, M: 2, N: 2, Cause: "pacer", FailRT: true}, ev.Pick(2, 3))
 	add(params{W0: 1, M: 1, N: 2, Cause: "pacer", FailRT: true}, -1)
+	// the Attacker is re-used for a second attack while the first one is running
+	add(params{W0: 1, M: 1, N: 1, Cause: "pacer", Second: true}, ev.Pick(2, 3))
+	if ev.Thorough() {
+		add(params{W0: 1, M: 1, N: 2, Cause: "pacer", Second: true}, 1)
+	}
 	if ev.Thorough() {
 		add(params{W0: 3, M: 3, N: 4, Cause: "pacer"}, 2)
 	}
